@@ -299,6 +299,12 @@ func scenarios() []*sched.Config {
 			}
 		}
 	}
+	// default quorum: without minWritesForSuccess every WRITE replica must succeed, whatever the read set is
+	for _, nRead := range []int{0, 1, 2} {
+		for fail := 0; fail < 3; fail++ {
+			out = append(out, defaultQuorumScenario(3, nRead, fail))
+		}
+	}
 	// overlap where one read replica holds a truncated copy (its stat and enumerate report a smaller size)
 	for truncMask := 1; truncMask < 8; truncMask++ {
 		if truncMask == 7 {
@@ -307,6 +313,55 @@ func scenarios() []*sched.Config {
 		out = append(out, truncScenario(truncMask))
 	}
 	return out
+}
+
+// defaultQuorumScenario: n write replicas, the first nRead of them (0: not configured) are the
+// read replicas, minWritesForSuccess not configured (documented default: all write replicas);
+// write replica number failIdx fails. The receive must report an error.
+func defaultQuorumScenario(n, nRead, failIdx int) *sched.Config {
+	name := fmt.Sprintf("write-default-quorum/n=%d/readBackends=%d/fail=r%d", n, nRead, failIdx)
+	return &sched.Config{Name: name, Bound: 2, SigPrefix: "C12|write-default-quorum",
+		Body: func(x *sched.X) {
+			env := bk.NewEnv()
+			defer env.Close()
+			reps := make([]*rep, n)
+			var prefixes, reads []any
+			for i := range reps {
+				p := fmt.Sprintf("/r%d/", i)
+				o := oOK
+				if i == failIdx {
+					o = oErr
+				}
+				reps[i] = &rep{Mem: hs.NewMem(p), idx: i, outcome: o}
+				env.Ld.Set(p, reps[i])
+				prefixes = append(prefixes, p)
+				if i < nRead {
+					reads = append(reads, p)
+				}
+			}
+			args := map[string]any{"backends": prefixes}
+			if nRead > 0 {
+				args["readBackends"] = reads
+			}
+			sto, err := env.Create("replica", args)
+			if err != nil {
+				panic(err)
+			}
+			var rerr error
+			returned := false
+			x.Go("client", func() {
+				_, rerr = sto.ReceiveBlob(ctx, theBlob.Ref, bytes.NewReader(theBlob.Data))
+				returned = true
+			})
+			x.Run()
+			if x.Deadlock || !returned {
+				x.Fail("receive-hangs", fmt.Sprintf("ReceiveBlob did not return (deadlock=%v)", x.Deadlock))
+				return
+			}
+			if rerr == nil {
+				x.Fail("success-below-default-quorum", fmt.Sprintf("ReceiveBlob returned success although write replica r%d failed and minWritesForSuccess is not configured (default: all %d write replicas); readBackends = first %d", failIdx, n, nRead))
+			}
+		}}
 }
 
 // truncScenario: all three read replicas hold blob a, the ones in truncMask hold a
